@@ -1,6 +1,7 @@
 (* Extraction of the static-fence and hook-registry models (C05). ExtrOcamlBasic only. *)
 From Coq Require Import Extraction ExtrOcamlBasic.
-From T38 Require Import Base.Bytes Model.Glob Model.Fence Model.HookReg.
+From T38 Require Import Base.Bytes Model.Glob Model.Fence Model.HookReg Model.Queues Model.FenceQueue.
 Extraction Language OCaml.
 Extraction "model.ml" Z.add Z.of_N Nat.add glob_match fence_match doc_msgs weight
-  reg_empty reg_step candidates hooks hooksOut hookTree hookCross hookExpires.
+  reg_empty reg_step candidates hooks hooksOut hookTree hookCross hookExpires
+  hq_init qstep qrun pending taken_list send_all hist webhook_accepted webhook_owed webhook_stream channel_stream live_stream msg_decode.
